@@ -93,10 +93,11 @@ add("C03", "exploration",
 
 add("C10", "exploration",
     "Exploration. The real in-channel telnet and ssh login code is driven through 580 (quick) / ~25 000 (thorough) generated dialogues under generic, network and NETCONF "
-    "drivers with random segmentations and stall points; every ssh failure line and prompt spelling of the generator families is included. Outcome class, credential/prompt "
+    "drivers with random segmentations and stall points; every ssh failure line and prompt spelling of the generator families is included. A connection-loss family cuts sampled dialogues "
+    "after every byte offset of the exchange (EOF, read error, ETIMEDOUT-wrapped error, write error at every write). Outcome class, credential/prompt "
     "pairing, the <=2 bound, transport close on failure and availability of login bytes are compared with a plan-derived oracle. Holds for dialogues meeting the stated "
     "no-ambiguous-prefix preconditions (checked by brute force with the session's own patterns).",
-    "DESIGN.md §3 C10", "plan-driven login device model behind an in-channel-auth transport model; outcome oracle computed from the plan; device (state,line) log, close counter and first-operation checks")
+    "DESIGN.md §3 C10", "plan-driven login device model behind an in-channel-auth transport model; outcome oracle computed from the plan; device (state,line) log, close counter and first-operation checks; connection loss injected at every offset of the login exchange")
 
 add("C11", "exploration",
     "Exploration. In 300 (quick) / 10 000 (thorough) sessions with random printable secrets (format verbs, regexp metacharacters, spaces, quotes) a collecting logger at "
